@@ -147,6 +147,12 @@ Definition prop_rec (pol : policy) (o : N) (handler : bool) (f : fwd) (s : list 
            | None => Nat.leb (length (spec_outputs o handler s)) (N.to_nat k)
            | Some _ => Nat.ltb (N.to_nat k) (length (spec_outputs o handler s))
            end)
+      | FwdTake n =>
+          (* the consumer stopped polling after n events: exactly the first n were delivered,
+             nothing ended *)
+          onat_eqb done None &&
+          ev_list_eqb (outputs tr) (firstn (N.to_nat n) (spec_outputs o handler s)) &&
+          prefix_b (handled tr) (spec_handled o handler s)
       end
   | _, _ => false
   end.
